@@ -7,7 +7,7 @@ package engines
 //	wasm draw <op>; …   size W H | sc X Y MAIN COMB STYLE | fill R STYLE | variant fz | ss STYLE | show | sync | lock X Y W H 0|1
 //	                    | cur X Y | hide | cs N COLOR | clear | beep | title HEX
 //	wasm ev <op>; …     em F|- | dm | ep | dp | ef | df | suspend | resume | key HEXNAME sh al ct me
-//	                    | click X Y B sh al ct | move X Y B sh al ct | paste 0|1 | focus 0|1
+//	                    | click X Y B sh al ct | move X Y B sh al ct | paste 0|1 | focus 0|1 | burst N (N key callbacks back to back)
 //	wasm life <op>; …   suspend | resume | size W H | fini          (every order up to length 4)
 
 import (
@@ -48,6 +48,11 @@ func wb01(b bool) int {
 }
 
 func wasmGen(g *h.Gen) {
+	// bursts of callbacks in one JS task while the application is not polling (below, at and well above the queue's capacity)
+	for _, n := range []int{3, 10, 11, 28, 64} {
+		g.Emit("wasm ev burst %d", n)
+		g.Emit("wasm ev ep; paste 1; burst %d; paste 0", n)
+	}
 	r := g.R
 	// ---- lifecycle: every order of Suspend/Resume/SetSize/Fini up to length 4 (exhaustive)
 	kinds := []string{"suspend", "resume", "size", "fini"}
